@@ -7,6 +7,12 @@ use pairing::signum::{Sgn0Result, Signum0};
 use serde_json::{json, Value};
 use std::cmp::Ordering;
 
+/// every comparison entry point (cmp and the four operators, which can be overridden separately)
+pub fn ordx_j<T: Ord>(a: &T, b: &T) -> Value {
+    json!({"c": ord_j(a.cmp(b)), "lt": a < b, "le": a <= b, "gt": a > b, "ge": a >= b,
+           "pc": match a.partial_cmp(b) { Some(o) => ord_j(o), None => json!(9) },
+           "max_is_a": std::cmp::max(a, b) as *const T == a as *const T || a == b})
+}
 pub fn ord_j(o: Ordering) -> Value {
     match o {
         Ordering::Less => json!(-1),
@@ -150,7 +156,7 @@ macro_rules! prime_ops {
     ($name:ident, $F:ty, $R:ty, $mkrepr:ident, $nw:expr) => {
         fn $name(f: &str, op: &Value) -> Option<Value> {
             Some(match f {
-                "cmp" => ord_j(<$F>::from_j(&op["a"]).cmp(&<$F>::from_j(&op["b"]))),
+                "cmp" => ordx_j(&<$F>::from_j(&op["a"]), &<$F>::from_j(&op["b"])),
                 "from_repr" => match <$F>::from_repr($mkrepr(&op["n"])) {
                     Ok(x) => json!(["ok", x.to_j()]),
                     Err(_) => json!(["err"]),
@@ -215,7 +221,7 @@ macro_rules! repr_ops {
                 "is_odd" => json!(a().is_odd()),
                 "is_even" => json!(a().is_even()),
                 "is_zero" => json!(a().is_zero()),
-                "cmp" => ord_j(a().cmp(&b())),
+                "cmp" => ordx_j(&a(), &b()),
                 "eq" => json!(a() == b()),
                 "write_be" => {
                     let mut v = vec![];
@@ -311,7 +317,7 @@ fn fq2_ops(f: &str, op: &Value) -> Option<Value> {
             x.square();
             json!({"sq": x.to_j(), "root": opt_j(x.sqrt()), "leg": leg_j(x.legendre())})
         }
-        "cmp" => ord_j(a().cmp(&Fq2::from_j(&op["b"]))),
+        "cmp" => ordx_j(&a(), &Fq2::from_j(&op["b"])),
         _ => return None,
     })
 }
